@@ -129,6 +129,7 @@ def main():
     ap.add_argument('--repo', default='/repo')
     ap.add_argument('--replay', default=None)
     ap.add_argument('--keep', action='store_true')
+    ap.add_argument('--units', default=None, help='debug: restrict Kani units (comma separated)')
     a = ap.parse_args()
     if a.replay:
         return replay(a)
@@ -148,8 +149,11 @@ def main():
         with cf.ThreadPoolExecutor(max_workers=6) as ex:
             futs = [ex.submit(run_vgroup, g, a.repo, scratch, rl) for g in cfg.get('vgroups', [])]
             kfut = None
-            if krun is not None and cfg.get('kunits'):
-                kfut = ex.submit(krun.run_units, cfg['kunits'], a.repo, scratch, tier, pid)
+            kunits = cfg.get('kunits', [])
+            if a.units:
+                kunits = [u for u in kunits if u in a.units.split(',')]
+            if krun is not None and kunits:
+                kfut = ex.submit(krun.run_units, kunits, a.repo, scratch, tier, pid)
             for f in futs:
                 vres.append(f.result()[0])
             kres = kfut.result() if kfut else dict(units=[], undecided=[], wall=0)
